@@ -494,12 +494,37 @@ def eventsRun (fuel : Nat) (s : State) : State :=
   -- (out of fuel: the model gave up, nothing more is recorded)
   if s1.fault then s1 else emit { s1 with intr := false } (.ret rc)
 
+/-- the `while ((done[0] == 0) && (rc == 0) && (interrupt_requested == 0)) rc = events_run_internal();`
+    loop of `events_spin`, `rc` being the value of the C variable when the condition is tested.  The
+    first argument is the fuel handed to every `events_run_internal`, the second bounds the number of
+    turns (totality only): running out of it is the outcome `fault` — the model gives up, nothing the C
+    could print matches it.  Every turn runs a callback (at most `cbCap` + 1 per call, `cbcount` is not
+    reset between turns), ends the call (status, interrupt request — the default answer to an infinite
+    wait with nothing ready is one —, `done`), or is one leg of 2147483 s of the wait for a timer further
+    away than that; `spinFuel` leaves room for 600 such legs, generators stay below 3. -/
+def spinLoop (fuel : Nat) : Nat → State → Int → State × Int
+  | 0, s, _ => (faulted s, 0)
+  | n + 1, s, rc =>
+    if s.done = false ∧ rc = 0 ∧ s.intr = false ∧ s.fault = false then
+      spinLoop fuel n (runInternal fuel s).1 (runInternal fuel s).2
+    else (s, rc)
+
+/-- turns of the loop of one `events_spin` -/
+def spinFuel : Nat := 1000
+
+/-- `events_spin(&done)`; afterwards the caller (the harness) clears its `done` variable -/
+def eventsSpin (fuel : Nat) (s : State) : State :=
+  let s0 := emit { s with cbcount := 0 } .spinBegin
+  let r := spinLoop fuel spinFuel s0 0
+  if r.1.fault then r.1 else emit { r.1 with intr := false, done := false } (.spinRet r.2)
+
 /-- top-level ops of a program -/
 inductive Top
   | api (o : Op)
   | script (id : Nat) (sc : Script)
   | pollAns (a : PollAns)
   | run
+  | spin
   deriving Repr, Inhabited
 
 def stepTop (fuel : Nat) (s : State) : Top → State
@@ -507,6 +532,7 @@ def stepTop (fuel : Nat) (s : State) : Top → State
   | .script id sc => { s with scripts := (id, sc) :: s.scripts }
   | .pollAns a => { s with pollq := s.pollq ++ [a] }
   | .run => if s.fault then s else eventsRun fuel s
+  | .spin => if s.fault then s else eventsSpin fuel s
 
 /-- the trace of a whole program (oldest event first) -/
 def run (fuel : Nat) (prog : List Top) : Trace :=
